@@ -59,7 +59,8 @@ func genC11(g *Gen) {
 		g.addf("nwkid %d", uint32(i)<<24|g.r.U32()&0xffffff)
 	}
 	// representations
-	for kind, k := range idKinds {
+	for _, kind := range []string{"EUI64", "DevAddr", "NetID", "AES128Key"} { // fixed order: the op list must be a function of the seed
+		k := idKinds[kind]
 		for i := 0; i < g.scale(300, 20000); i++ {
 			b := g.r.Bytes(k)
 			if i%7 == 0 {
